@@ -36,6 +36,11 @@ func ReadResponse(r io.Reader, apiKey ApiKey, apiVersion int16) (correlationID i
 		return
 	}
 
+	if size < 0 {
+		err = fmt.Errorf("invalid response size: %d", size)
+		return
+	}
+
 	d.remain = int(size)
 	correlationID = d.readInt32()
 	if err = d.err; err != nil {
